@@ -10,6 +10,7 @@ import (
 	"fmt"
 	"math"
 	"math/rand"
+	"sort"
 	"strconv"
 	"strings"
 	"time"
@@ -50,6 +51,15 @@ func (p *parser) eat(lit string) {
 }
 func (p *parser) peek(lit string) bool { return strings.HasPrefix(p.s[p.i:], lit) }
 func (p *parser) num() int {
+	// value classes of Policy.tla: B = BIG, N = NEG
+	if p.peek("B") {
+		p.i++
+		return bigVal
+	}
+	if p.peek("N") {
+		p.i++
+		return negVal
+	}
 	j := p.i
 	for j < len(p.s) && (p.s[j] == '-' || (p.s[j] >= '0' && p.s[j] <= '9')) {
 		j++
@@ -141,13 +151,23 @@ func parseTerm(s string) (n *node, err error) {
 	return n, nil
 }
 
+func numStr(v int) string {
+	switch v {
+	case bigVal:
+		return "B"
+	case negVal:
+		return "N"
+	}
+	return strconv.Itoa(v)
+}
+
 // String prints the term form (the inverse of parseTerm).
 func (n *node) String() string {
 	switch n.K {
 	case "above":
-		return fmt.Sprintf("ab(%d)", n.A)
+		return "ab(" + numStr(n.A) + ")"
 	case "after":
-		return fmt.Sprintf("af(%d)", n.A)
+		return "af(" + numStr(n.A) + ")"
 	case "pk":
 		return fmt.Sprintf("pk(%d)", n.A)
 	case "hash":
@@ -165,7 +185,7 @@ func (n *node) String() string {
 		for i, k := range n.Keys {
 			parts[i] = string("enx"[k.Alg]) + strconv.Itoa(k.ID)
 		}
-		return fmt.Sprintf("uc(%d,%d,[%s])", n.A, n.B, strings.Join(parts, ","))
+		return fmt.Sprintf("uc(%s,%s,[%s])", numStr(n.A), numStr(n.B), strings.Join(parts, ","))
 	}
 	return "?"
 }
@@ -223,9 +243,206 @@ const nKeys, nImages = 6, 6
 // maxModelHeight is the largest height of the model (the largest base maps it to 2^64-1).
 const maxModelHeight = 12
 
+// maxModelTime is the largest time of the model (times are 0 and T0-2..T0+3, T0 = 1000).
+const maxModelTime = 1010
+
+// The value classes of Policy.tla (parameters beyond TLC's integers) and their members. The
+// tables are compared with the mapping the specification prints (WIT line); the verdict for a
+// class always comes from TLC, the harness only instantiates every member.
+const (
+	bigVal = 1000000000  // BIG
+	negVal = -1000000000 // NEG
+)
+
+var bigU64 = []uint64{1 << 31, 1 << 32, 1<<63 - 1, 1 << 63, math.MaxUint64}
+
+// secondsToInternal: time.Time counts seconds from year 1; time.Unix(s) wraps for s > MaxInt64 - this
+const unixToInternal = 62135596800
+
+var bigI64 = []int64{1 << 31, 1 << 32, math.MaxInt64 - unixToInternal, math.MaxInt64 - unixToInternal + 1, math.MaxInt64}
+var negI64 = []int64{math.MinInt64, math.MinInt64 + 1, -unixToInternal - 1, -(1 << 32), -1}
+
+const nInst = 5
+
+var u64Names = map[uint64]string{1 << 31: "2^31", 1 << 32: "2^32", 1<<63 - 1: "2^63-1", 1 << 63: "2^63", math.MaxUint64: "2^64-1"}
+var i64Names = map[int64]string{1 << 31: "2^31", 1 << 32: "2^32", math.MaxInt64 - unixToInternal: "2^63-1-62135596800", math.MaxInt64 - unixToInternal + 1: "2^63-62135596800",
+	math.MaxInt64: "2^63-1", math.MinInt64: "-2^63", math.MinInt64 + 1: "-2^63+1", -unixToInternal - 1: "-62135596801", -(1 << 32): "-2^32", -1: "-1"}
+
+// checkClassTables compares the tables above with the mapping printed by the specification.
+func checkClassTables(bigu, bigt, negt []string) error {
+	if len(bigu) != nInst || len(bigt) != nInst || len(negt) != nInst {
+		return fmt.Errorf("the specification lists %d/%d/%d class members, the harness instantiates %d", len(bigu), len(bigt), len(negt), nInst)
+	}
+	for i := 0; i < nInst; i++ {
+		if bigu[i] != strconv.FormatUint(bigU64[i], 10) || bigt[i] != strconv.FormatInt(bigI64[i], 10) || negt[i] != strconv.FormatInt(negI64[i], 10) {
+			return fmt.Errorf("class member %d: specification %s %s %s, harness %d %d %d", i, bigu[i], bigt[i], negt[i], bigU64[i], bigI64[i], negI64[i])
+		}
+	}
+	return nil
+}
+
+// classUse says which value classes occur in revealed (not opaque-hidden) positions of n and,
+// separately, anywhere (an address term below an opaque node is instantiated as well).
+type classUse struct{ bigH, bigT, negT, bigCount bool }
+
+func (u classUse) any() bool { return u.bigH || u.bigT || u.negT || u.bigCount }
+
+func (n *node) classes(u *classUse, below bool) {
+	switch n.K {
+	case "above":
+		u.bigH = u.bigH || n.A == bigVal
+	case "after":
+		u.bigT = u.bigT || n.A == bigVal
+		u.negT = u.negT || n.A == negVal
+	case "uc":
+		u.bigH = u.bigH || n.A == bigVal
+		u.bigCount = u.bigCount || n.B == bigVal
+	case "opaque":
+		if below && n.Hid != nil {
+			n.Hid.classes(u, below)
+		}
+	}
+	for _, c := range n.Of {
+		c.classes(u, below)
+	}
+}
+
+// validInst reports whether member k of the classes used by n lies, in environment e, on the
+// side of every mapped height and time of the model that the class promises.
+func (e *env) validInst(n *node, k int) bool {
+	var u classUse
+	n.classes(&u, true)
+	if u.bigH && (e.hBase+maxModelHeight < e.hBase || bigU64[k] <= e.hBase+maxModelHeight) {
+		return false
+	}
+	if u.bigT && bigI64[k] <= e.time(maxModelTime).Unix()+1 {
+		return false
+	}
+	if u.negT && negI64[k] >= e.time(0).Unix()-1 {
+		return false
+	}
+	return true
+}
+
+// numLabels names the numeric extremes a policy exercises in revealed positions (for the
+// vacuity guards): class members by value, and the directly representable boundary values.
+func (e *env) numLabels(n *node, out map[string]bool) {
+	switch n.K {
+	case "above":
+		if n.A == bigVal {
+			out["above.h="+u64Names[bigU64[e.inst]]] = true
+		} else if e.height(n.A) == 0 {
+			out["above.h=0"] = true
+		}
+	case "after":
+		if n.A == bigVal {
+			out["after.t="+i64Names[bigI64[e.inst]]] = true
+		} else if n.A == negVal {
+			out["after.t="+i64Names[negI64[e.inst]]] = true
+		}
+	case "uc":
+		if n.A == bigVal {
+			out["uc.lock="+u64Names[bigU64[e.inst]]] = true
+		} else if e.height(n.A) == 0 {
+			out["uc.lock=0"] = true
+		}
+		switch {
+		case n.B == bigVal:
+			out["uc.sigs="+u64Names[bigU64[e.inst]]] = true
+		case n.B == 0 || n.B == 255 || n.B == 256:
+			out[fmt.Sprintf("uc.sigs=%d", n.B)] = true
+		case n.B == len(n.Keys)+1:
+			out["uc.sigs=len+1"] = true
+		case n.B == len(n.Keys):
+			out["uc.sigs=len"] = true
+		}
+		out[fmt.Sprintf("uc.keys=%d", min(len(n.Keys), 2))] = true
+	case "thresh":
+		switch {
+		case n.A == 0 || n.A == 255:
+			out[fmt.Sprintf("thresh.n=%d", n.A)] = true
+		case n.A == len(n.Of)+1:
+			out["thresh.n=len+1"] = true
+		case n.A == len(n.Of):
+			out["thresh.n=len"] = true
+		}
+		for _, c := range n.Of {
+			e.numLabels(c, out)
+		}
+	}
+}
+
+// classKey is the coarse, stable name of the class members in revealed positions (used in
+// violation keys): uint64 parameters below / from 2^63, times that fit time.Time / wrap / negative.
+// which selects the classes that can be the reason of a wrong verdict: "accepts-unsatisfied" -
+// only a parameter of class BIG makes a policy unsatisfied, so only those are named;
+// "rejects-satisfied" - a satisfied policy has no revealed BIG parameter, only NEG times are
+// named; anything else names all.
+func (e *env) classKey(n *node, which string) string {
+	all := e.classKeyAll(n)
+	var parts []string
+	for _, k := range all {
+		neg := k == "after.t=negative"
+		if (which == "accepts-unsatisfied" && neg) || (which == "rejects-satisfied" && !neg) {
+			continue
+		}
+		parts = append(parts, k)
+	}
+	return strings.Join(parts, "+")
+}
+
+func (e *env) classKeyAll(n *node) []string {
+	set := map[string]bool{}
+	var walk func(n *node)
+	u := func(v uint64) string {
+		if v >= 1<<63 {
+			return ">=2^63"
+		}
+		return "<2^63"
+	}
+	walk = func(n *node) {
+		switch n.K {
+		case "above":
+			if n.A == bigVal {
+				set["above.h"+u(bigU64[e.inst])] = true
+			}
+		case "after":
+			if n.A == bigVal {
+				if bigI64[e.inst] > math.MaxInt64-unixToInternal {
+					set["after.t=wraps-time.Time"] = true
+				} else {
+					set["after.t=big"] = true
+				}
+			} else if n.A == negVal {
+				set["after.t=negative"] = true
+			}
+		case "uc":
+			if n.A == bigVal {
+				set["uc.lock"+u(bigU64[e.inst])] = true
+			}
+			if n.B == bigVal {
+				set["uc.sigs"+u(bigU64[e.inst])] = true
+			}
+		}
+		for _, c := range n.Of {
+			walk(c)
+		}
+	}
+	walk(n)
+	var parts []string
+	for k := range set {
+		parts = append(parts, k)
+	}
+	sort.Strings(parts)
+	return parts
+}
+
 // inRange reports whether every height of n can be mapped by every environment.
 func inRange(n *node) bool {
-	if (n.K == "above" || n.K == "uc") && (n.A < 0 || n.A > maxModelHeight) {
+	if (n.K == "above" || n.K == "uc") && (n.A < 0 || n.A > maxModelHeight) && n.A != bigVal {
+		return false
+	}
+	if n.K == "after" && (n.A < 0 || n.A > maxModelTime) && n.A != bigVal && n.A != negVal {
 		return false
 	}
 	if n.Hid != nil && !inRange(n.Hid) {
@@ -257,6 +474,17 @@ type env struct {
 	garbPre [][32]byte        // preimages of no image of the model
 	entropy types.UnlockKey
 	other   []types.UnlockKey
+	inst    int // which member of the value classes BIG / NEG stands for (index into bigU64, bigI64, negI64)
+}
+
+// withInst is e with the value classes instantiated by their k-th members.
+func (e *env) withInst(k int) *env {
+	if k == e.inst {
+		return e
+	}
+	c := *e
+	c.inst = k
+	return &c
 }
 
 var hBases = []uint64{0, 1<<32 - 10, 1<<63 - 10, math.MaxUint64 - maxModelHeight, 500000}
@@ -313,6 +541,29 @@ func newEnv(id int) *env {
 func (e *env) height(v int) uint64  { return e.hBase + uint64(v) }
 func (e *env) time(v int) time.Time { return e.tBase.Add(time.Duration(v) * e.tUnit) }
 
+// parameters of policies: a value class is replaced by its member e.inst
+func (e *env) heightP(v int) uint64 {
+	if v == bigVal {
+		return bigU64[e.inst]
+	}
+	return e.height(v)
+}
+func (e *env) timeP(v int) time.Time {
+	switch v {
+	case bigVal:
+		return time.Unix(bigI64[e.inst], 0)
+	case negVal:
+		return time.Unix(negI64[e.inst], 0)
+	}
+	return e.time(v)
+}
+func (e *env) countP(v int) uint64 {
+	if v == bigVal {
+		return bigU64[e.inst]
+	}
+	return uint64(v)
+}
+
 func (e *env) unlockKey(k ukey) types.UnlockKey {
 	switch k.Alg {
 	case 0:
@@ -348,9 +599,9 @@ func (e *env) addressOf(t *node) types.Address {
 func (e *env) policy(n *node) types.SpendPolicy {
 	switch n.K {
 	case "above":
-		return types.PolicyAbove(e.height(n.A))
+		return types.PolicyAbove(e.heightP(n.A))
 	case "after":
-		return types.PolicyAfter(e.time(n.A))
+		return types.PolicyAfter(e.timeP(n.A))
 	case "pk":
 		return types.PolicyPublicKey(e.pubs[n.A])
 	case "hash":
@@ -367,7 +618,7 @@ func (e *env) policy(n *node) types.SpendPolicy {
 		}
 		return types.PolicyThreshold(uint8(n.A), of)
 	case "uc":
-		uc := types.UnlockConditions{Timelock: e.height(n.A), SignaturesRequired: uint64(n.B)}
+		uc := types.UnlockConditions{Timelock: e.heightP(n.A), SignaturesRequired: e.countP(n.B)}
 		for _, k := range n.Keys {
 			uc.PublicKeys = append(uc.PublicKeys, e.unlockKey(k))
 		}
